@@ -4,7 +4,7 @@ from __future__ import annotations
 from dataclasses import dataclass, field
 
 from . import ty as T
-from .ty import BOOL, INT, NONE, REAL, STR, Dict, List, Opaque, Opt, Ref, Set, Tuple, Union  # noqa: F401
+from .ty import BOOL, INT, NONE, REAL, STR, Dict, List, Map, Opaque, Opt, Ref, Set, Tuple, Union  # noqa: F401
 
 CONTRACTS: dict[str, "FnContract"] = {}
 CLASSES: dict[str, "ClassSpec"] = {}
@@ -43,6 +43,8 @@ class FnContract:
     hints: dict = field(default_factory=dict)  # line text -> list of assertion clauses (proved, then usable)
     partial: bool = True  # termination not proved
     notes: str = ""
+    ghost_vars: dict = field(default_factory=dict)  # ghost name -> (Ty, initial value expression)
+    ghost: dict = field(default_factory=dict)  # statement text -> [ghost assignment statements] run after it
     runtime: object = None  # Runtime: generator of real inputs for cross-check / replay
     alias_ok: tuple = ()
 
@@ -83,6 +85,7 @@ class ClassSpec:
     length: object = None
     truth: object = None
     notes: str = ""
+    derived: dict = field(default_factory=dict)  # abstract field -> callable(ex, st, self) computing it from the heap
     has: dict = field(default_factory=dict)  # attribute -> Bool field saying whether it exists (hasattr)
     absent: tuple = ()  # attributes known not to exist (getattr default is taken)
     isa: tuple | None = None  # python class names this class is an instance of
